@@ -40,6 +40,9 @@ const (
 	c11OpAdvanceTTL
 	c11OpTick
 	c11OpCloseRelay
+	// CONNECT during whose ACL lookup the destination disconnects and comes back WITHOUT reserving again (configurations
+	// with an ACL only): by the time the ACL has answered the destination holds no reservation
+	c11OpConnectBounce
 )
 
 type c11Op struct {
@@ -101,6 +104,8 @@ func c11ShowOp(cfg *c11Cfg, o c11Op) string {
 		return fmt.Sprintf("Advance(%s)", c11Tick)
 	case c11OpCloseRelay:
 		return "CloseRelay"
+	case c11OpConnectBounce:
+		return "Connect(" + ad(o.C, o.A) + "->" + cl(o.D) + "; during the ACL lookup " + cl(o.D) + " disconnects and reconnects without reserving)"
 	}
 	return "?"
 }
@@ -150,6 +155,20 @@ func (in *c11Inst) ops() []c11Op {
 			for a := range cs.Addrs {
 				if in.sy.connOpen(c, a) {
 					ops = append(ops, c11Op{K: c11OpDropConn, C: c, A: a})
+				}
+			}
+		}
+	}
+	if in.sy.acl != nil {
+		// one source per destination that holds a reservation (the point is the destination's reservation)
+		for d := range cfg.Clients {
+			if in.rsv[d] == nil || cfg.Clients[d].Addrs[0].Relayed {
+				continue
+			}
+			for c, cs := range cfg.Clients {
+				if c != d && !cs.Addrs[0].Relayed && !cs.Addrs[0].ReserveOnly {
+					ops = append(ops, c11Op{K: c11OpConnectBounce, C: c, A: 0, D: d})
+					break
 				}
 			}
 		}
@@ -311,7 +330,7 @@ func (in *c11Inst) apply(op c11Op) (*c11Obs, error) {
 				return last, seqmc.Violation("refused-reserve-changed-counters", "RESERVE of %s answered %s, but counters/tags/memory changed: before %s after %s", lbl(op.C), rep.class(), b, a)
 			}
 		}
-	case c11OpConnect:
+	case c11OpConnect, c11OpConnectBounce:
 		as := cfg.Clients[op.C].Addrs[op.A]
 		sy.dial(op.C, op.A)
 		if !sy.hasDirect(op.D) && !cfg.Clients[op.D].Addrs[0].Relayed {
@@ -319,7 +338,31 @@ func (in *c11Inst) apply(op c11Op) (*c11Obs, error) {
 		}
 		before := sy.observe()
 		nOut := sy.host.outboundCount()
+		var release func()
+		if op.K == c11OpConnectBounce {
+			release = sy.acl.arm()
+		}
 		hop := sy.connectStart(op.C, op.A, op.D)
+		if release != nil {
+			if sy.acl.wasParked() {
+				// the handler waits for the ACL's answer: the destination goes away and comes back, then the ACL answers
+				in.outcome("CONNECT: destination bounced during the ACL lookup")
+				inflight := sy.observe().SvcMem - before.SvcMem // what the waiting handler holds for its own request
+				sy.disconnect(op.D)
+				in.dropDeadCircuits()
+				in.endReservationsOfDisconnected()
+				sy.dial(op.D, 0)
+				// the reference for "a refused CONNECT changes nothing" is the state after the bounce, without the
+				// memory the handler that is waiting for the ACL holds for its own (unfinished) request
+				before = sy.observe()
+				before.SvcMem -= inflight
+				nOut = sy.host.outboundCount()
+			} else {
+				in.outcome("CONNECT: answered without consulting the ACL")
+			}
+			release()
+			synctest.Wait()
+		}
 		var stop *c11Stream
 		stopOK := false
 		if sy.host.outboundCount() > nOut {
